@@ -243,6 +243,10 @@ theorem C04_closure_invocations_are_cancellable :
 theorem C04_closure_release_never_waits :
     Skeleton.current.clFreeNeverWaits = true ∧ Skeleton.current.clInvokeOutsideLock = true := by decide
 
+/-- A closure invocation made by a handler with a context that is done ALREADY is an ordinary call of M2 with a cancelled context (`C04_done_context_call_registers`): that needs `utils.Call` — through which the proxy calls the stub — to call it whatever its first argument is, and to hand its results back (checked against the regenerated skeleton). A `utils.Call` that returned the context's error itself would make the proxy panic, i.e. end the link. -/
+theorem C04_done_context_reaches_the_stub :
+    Skeleton.current.ucResultsUntouched = true ∧ Skeleton.current.panicSitesCanonical = true := by decide
+
 end Panrpc.Ep
 
 #print axioms Panrpc.Ep.C04_closure_invocations_are_cancellable
@@ -261,3 +265,4 @@ end Panrpc.Ep
 #print axioms Panrpc.Ep.C04_refusing_a_done_context_ends_the_link
 #print axioms Panrpc.Ep.C04_done_context_call_registers
 #print axioms Panrpc.Ep.C04_closure_release_never_waits
+#print axioms Panrpc.Ep.C04_done_context_reaches_the_stub
